@@ -590,7 +590,9 @@ func ScriptBoundary(emit func(*Program)) {
 	// a P2SH-shaped output after Genesis is a plain hash comparison: no push-only rule, no redeem script
 	for _, redeem := range [][]byte{{0x51}, {0x00}, {0x51, 0x51, 0x87}, {}} {
 		lock := append(append([]byte{0xa9, 0x14}, Hash160(redeem)...), 0x87)
-		for _, un := range [][]byte{Push(redeem), append([]byte{0x61}, Push(redeem)...), append([]byte{0x51, 0x75}, Push(redeem)...), append(Push(redeem), 0x61)} {
+		for _, un := range [][]byte{Push(redeem), append([]byte{0x61}, Push(redeem)...), append([]byte{0x51, 0x75}, Push(redeem)...), append(Push(redeem), 0x61),
+			// items pushed under the redeem script: they are what is left when the redeem script (an empty one too) has run
+			append([]byte{0x51}, Push(redeem)...), append([]byte{0x00}, Push(redeem)...), append([]byte{0x51, 0x52}, Push(redeem)...), append([]byte{0x00, 0x51}, Push(redeem)...)} {
 			for _, fl := range []uint32{FBip16 | FGenesis, FBip16, FGenesis, FBip16 | FGenesis | FCleanStack, FBip16 | FCleanStack, FBip16 | FGenesis | FSigPushOnly} {
 				emit((&Program{Unlock: append([]byte{}, un...), Lock: append([]byte{}, lock...), Flags: fl, Kind: "script-boundary"}).Fix())
 			}
